@@ -46,6 +46,7 @@ type c03Spec struct {
 	Transport string  `json:"transport"`
 	Ops       []c03Op `json:"ops"`
 	InitDur   int     `json:"init_dur_ms,omitempty"`
+	Batch     bool    `json:"batch,omitempty"`   // raw-init: 2025-03-26 and all operations travel as one JSON-RPC batch array
 	Version   string  `json:"version,omitempty"` // requested protocol version ("" = the client's default, 2026-07-28 on persistent connections)
 }
 
@@ -56,6 +57,7 @@ func genC03(r *vh.Rand) c03Spec {
 	if s.Mode == "raw-init" {
 		s.Transport = "pipe"
 		s.InitDur = r.Range(1, 6)
+		s.Batch = r.Chance(1, 3)
 	} else if s.Mode == "c2s" && r.Chance(1, 3) {
 		s.Version = ""
 		s.Transport = r.Choose("mem", "pipe")
@@ -395,11 +397,36 @@ func runC03Raw(c *vh.Case, spec c03Spec) {
 		}
 	}()
 	send := func(s string) { cw.Write([]byte(s + "\n")) }
+	pv := "2025-06-18"
+	if spec.Batch {
+		pv = "2025-03-26" // the last protocol version with JSON-RPC batches
+	}
 	log.Add("send", "n", -1, "kind", "call")
-	send(`{"jsonrpc":"2.0","id":"init","method":"initialize","params":{"protocolVersion":"2025-06-18","capabilities":{},"clientInfo":{"name":"raw","version":"0"}}}`)
+	send(fmt.Sprintf(`{"jsonrpc":"2.0","id":"init","method":"initialize","params":{"protocolVersion":%q,"capabilities":{},"clientInfo":{"name":"raw","version":"0"}}}`, pv))
 	log.Add("send", "n", -2, "kind", "notify")
 	send(`{"jsonrpc":"2.0","method":"notifications/initialized"}`)
+	if spec.Batch {
+		// one array carrying every operation: its members are dispatched in array order
+		time.Sleep(ms(spec.InitDur + 1))
+		var parts []string
+		for _, op := range spec.Ops {
+			log.Add("send", "n", op.N, "kind", op.Kind)
+			if op.Kind == "notify" {
+				parts = append(parts, fmt.Sprintf(`{"jsonrpc":"2.0","method":"notifications/progress","params":{"_meta":{"nonce":%d},"progressToken":"t","progress":1}}`, op.N))
+			} else {
+				parts = append(parts, fmt.Sprintf(`{"jsonrpc":"2.0","id":%d,"method":"tools/call","params":{"name":"work","arguments":{"nonce":%d}}}`, op.N, op.N))
+			}
+		}
+		send("[" + strings.Join(parts, ",") + "]")
+		synctestWait()
+		for _, op := range spec.Ops {
+			log.Add("api-return", "n", op.N)
+		}
+	}
 	for _, op := range spec.Ops {
+		if spec.Batch {
+			break
+		}
 		if op.Gap > 0 {
 			time.Sleep(ms(op.Gap))
 		}
